@@ -156,6 +156,19 @@ def dstep (s : DState) (toks : List String) : DState × List String :=
       let (s, l) := obs s cid
       (s, [l])
     | _, _, _, _ => (s, ["bad-op"])
+  | ["rconn", cid, sid, mode, pre] =>
+    match cid.toNat?, sid.toNat?, mode.toNat?, unhex? pre with
+    | some cid, some sid, some mode, some pre =>
+      if cid ≥ 64 || s.ever.contains cid || sid ≥ s.screens.length || mode > 2 || pre.length > 64 ||
+         (pre.length > 0 && pre.take 4 ≠ [82, 70, 66, 32]) then (s, ["bad-op"]) else
+      if mode ≠ 1 then (ev s (.reverseFailed sid), ["rc-failed"]) else
+      let s := { s with ever := insertSorted cid s.ever }
+      let s := ev s (.connect cid sid true)
+      let s := ev s (.recv cid pre)
+      let s := pump s cid 64
+      let (s, l) := obs s cid
+      (s, [l])
+    | _, _, _, _ => (s, ["bad-op"])
   | [op, cid, h] =>
     if op = "send" || op = "sendnp" then
       match cid.toNat?, unhex? h with
